@@ -499,7 +499,8 @@ impl Pool {
             "AggSum" => CV::Str("sum".into()),
             "AggLast" => CV::Str(self.pick(&["last", "min", "max"]).to_string()),
             "Seq" => {
-                let n = self.rng.below(4) as usize;
+                // metric samples: mostly two or more points
+                let n = if key == "metric_value" { [0usize, 1, 2, 3, 2, 3][self.rng.below(6) as usize] } else { self.rng.below(4) as usize };
                 let mut v = Vec::new();
                 for _ in 0..n {
                     v.push(self.value_at(rest, key).0);
@@ -541,6 +542,16 @@ impl Pool {
                             }
                             CV::F64(k)
                         }
+                        "Bytes" => {
+                            // non-empty, distinct byte strings (some not UTF-8)
+                            let mut k: Vec<u8> = (0..1 + self.rng.below(8)).map(|_| self.rng.next() as u8).collect();
+                            k.push(i as u8);
+                            if i == 0 && self.rng.below(2) == 0 {
+                                k = vec![0xff, 0x00, 0x80];
+                            }
+                            CV::Bytes(k)
+                        }
+                        "SeqKey" => CV::Seq(vec![CV::I64(self.i64().wrapping_add(i as i64)), CV::Str(format!("t{i}{}", self.pick(STRS)))]),
                         o => panic!("bad key kind {o}"),
                     };
                     v.push((k, self.value_at(&rest[1..], key).0));
